@@ -274,6 +274,34 @@ theorem unit_interval (crit : Crit Rex) (conf : Confidence Rex) (n k : ℕ) (hk 
   · exact ⟨_, _, rfl, u1, u2, by simpa using hr1, by simp⟩
   · exact ⟨_, _, rfl, by simp, by simpa using hr0, u3, u4⟩
 
+/-- **The clamp of `ci_wilson`** (`(mean - span).max(0.)`, `(mean + span).min(1.)`): on every rounded
+    carrier `RR fl` — whatever the rounding function `fl` applied after each operation, whatever the
+    level and whatever value the quantile routine returns, no hypothesis at all — every interval
+    `ci_wilson` returns is a two-sided `[a, b]` with `0 ≤ a ≤ b ≤ 1`.  (`unit_interval` above is the
+    exact-arithmetic statement, where the clamp is the identity and `k/n` is contained as well; a
+    rounding error that pushes `centre ∓ span` outside `[0,1]` can no longer reach the caller.) -/
+theorem unit_interval_rounded {fl : ℝ → ℝ} (crit : Crit (RR fl)) (conf : Confidence (RR fl))
+    (n k : ℕ) (I : Interval (RR fl)) (h : ciWilson crit conf n k = .ok I) :
+    ∃ a b : RR fl, I = .twoSided a b ∧ 0 ≤ a.val ∧ a.val ≤ b.val ∧ b.val ≤ 1 :=
+  ciWilson_ok_unit crit conf n k I h
+
+/-- the clamp acts: with the (absurd) rounding `fl _ = 5` both Wilson numbers and their sum are `5`;
+    the lower one-sided call returns `[0, 1]` (unclamped it would be `[0, 5]`) -/
+example : ciWilson (constCrit 2 : Crit (RR (fun _ => 5))) (.lower ⟨0.95⟩) 10 3
+    = .ok (.twoSided ⟨0⟩ ⟨1⟩) := by
+  have hp : probOk (Confidence.lower (⟨0.95⟩ : RR (fun _ => 5))).quantile = true := by
+    simp only [probOk, Confidence.quantile, Bool.and_eq_true, RR.le_iff, RR.zero_val, RR.one_val]
+    norm_num
+  have hhi : ∀ z : RR (fun _ => 5), fmin (NumOps.add
+      (wilsonCentre (Scalar.ofNat 10) (Scalar.ofNat 3) z)
+      (wilsonSpan (Scalar.ofNat 10) (Scalar.ofNat 3) z)) (NumOps.one : RR (fun _ => 5)) = ⟨1⟩ := by
+    intro z; apply RR.ext'; rw [fmin_val]; simp
+  have h1 : ¬ (3 > 10) := by decide
+  have h2 : ¬ (3 < 2) := by decide
+  have h3 : ¬ (10 - 3 < 2) := by decide
+  simp only [ciWilson, h1, h2, h3, if_false, zValue, hp, if_true, Outcome.bind_ok, finishWilson, hhi]
+  rw [new_ok _ _ (by simp)]; rfl
+
 /-! ### 6. the midpoint -/
 
 /-- the midpoint of the two-sided interval is the model's centre, a weighted mean of `k/n` and `1/2`
